@@ -87,6 +87,68 @@ def long_cases(rnd, quick):
     return out
 
 
+S5_UNITS_QUICK = [1000]
+S5_UNITS_THOROUGH = [1, 1000, 20000]     # 20000 > the jobs' 16384-byte socket block
+
+
+def s5_classes(behs):
+    """One model behaviour per class (file size in units, fault kind, unit hit): the sockets decide the interleaving."""
+    cl = {}
+    for b in behs:
+        f = [s for s in b["steps"] if s["a"] == "Fault"]
+        key = (b["n"], f[0]["k"] if f else "none", f[0]["u"] if f else 0)
+        if key not in cl or len(b["steps"]) > len(cl[key]["steps"]):
+            cl[key] = b
+    return [cl[k] for k in sorted(cl)]
+
+
+def run_s5(chk, quick, rnd, replay_execs=None):
+    """SOCKS5 bytestreams: IbbS5.tla model-checked, one real loopback transfer per class of its behaviours."""
+    chk.mc(vf.tlc_mc("IbbS5.tla", "IbbS5.cfg", workers=2), "IbbS5.cfg")
+    chk.mc(vf.tlc_mc("IbbS5.tla", "IbbS5Live.cfg", workers=2), "IbbS5Live.cfg (both jobs finish under fair scheduling)")
+    if replay_execs is not None:
+        execs = replay_execs
+    else:
+        behs, st = vf.tlc_gen("IbbS5Gen.tla", "IbbS5GenAll.cfg")
+        classes = [b for b in s5_classes(behs) if b["n"] <= (3 if quick else 4)]
+        st["classes"] = len(classes)
+        chk.cov["generation"]["socks5_all_paths_one_fault"] = st
+        execs = []
+        for unit in (S5_UNITS_QUICK if quick else S5_UNITS_THOROUGH):
+            for i, b in enumerate(classes):
+                size = b["n"] * unit - (i % 2 if unit > 1 and b["n"] > 0 else 0)     # last unit full / one byte short
+                execs.append(dict(b, method="socks5", unit=unit, size=size, cseed=rnd.getrandbits(40)))
+    if not execs:
+        return [], {}, {"cases": 0, "lines": 0, "viol": [], "ndiv": 0, "divs": [], "faulted": 0, "clean": 0, "wall_s": 0}
+    vf.write_ndjson(chk.path("behaviours-s5.ndjson"), execs)
+    trace = chk.path("trace-s5.ndjson")
+    r = vf.qxv("ibbs5", trace, in_path=chk.path("behaviours-s5.ndjson"), seed=chk.seed, tier=chk.tier, check=True)
+    chk.cov["socks5_replay_wall_s"] = r["wall_s"]
+    s = vf.tlc_trace("IbbS5Trace.tla", "IbbS5Trace.cfg", trace)
+    cases = vf.split_cases(trace)
+    # a stalled transfer is judged by rounds without any activity: confirm with a 4x longer quiet period
+    bad = sorted({v["case"] for v in s["viol"]}, key=lambda c: int(c[1:]))
+    if bad and replay_execs is None:
+        again = [dict(execs[int(c[1:]) - 1], idle=240) for c in bad]
+        vf.write_ndjson(chk.path("behaviours-s5-confirm.ndjson"), again)
+        t2 = chk.path("trace-s5-confirm.ndjson")
+        vf.qxv("ibbs5", t2, in_path=chk.path("behaviours-s5-confirm.ndjson"), seed=chk.seed, tier=chk.tier, check=True)
+        s2 = vf.tlc_trace("IbbS5Trace.tla", "IbbS5Trace.cfg", t2, tag="IbbS5Trace-confirm")
+        confirmed = {bad[int(v["case"][1:]) - 1] + "/" + v["prop"] for v in s2["viol"]}
+        dropped = [v for v in s["viol"] if v["case"] + "/" + v["prop"] not in confirmed]
+        if dropped:
+            chk.note(f"{len(dropped)} SOCKS5 outcome(s) not confirmed by the re-run with a longer quiet period (not reported): "
+                     + ", ".join(sorted({v['case'] + '/' + v['prop'] for v in dropped})))
+        s["viol"] = [v for v in s["viol"] if v["case"] + "/" + v["prop"] in confirmed]
+        chk.cov["socks5_confirm_reruns"] = len(again)
+    return execs, cases, s
+
+
+def short_s5(b):
+    f = [s for s in b["steps"] if s["a"] == "Fault"]
+    return f"socks5/unit={b.get('unit')}/size={b.get('size')}/n={b['n']}:" + (f"{f[0]['k']}(unit {f[0]['u']})" if f else "clean")
+
+
 def klass(b, lines):
     """Class of an execution for the violation signature: the faults that were *applied* (logged)."""
     ks = [ln["k"] for ln in lines if ln["e"] == "Fault"]
@@ -156,8 +218,12 @@ def run(chk, replay=None):
     if not quick:
         chk.mc(vf.tlc_mc("Ibb.tla", "Ibb2.cfg", workers=4), "Ibb2.cfg (two faults: safety)")
     # 2. behaviours
+    s5_replay = None
     if replay:
-        execs = [b for b in vf.read_ndjson(replay) if "steps" in b]
+        items = [b for b in vf.read_ndjson(replay) if "steps" in b]
+        execs = [b for b in items if b.get("method") != "socks5"]
+        s5_replay = [b for b in items if b.get("method") == "socks5"]
+        chk.cov["generation"] = {"replay": replay}
     else:
         one, st1 = vf.tlc_gen("IbbGen.tla", "IbbGenAll.cfg")       # one stream fault, files of 0..7 blocks
         inj, st2 = vf.tlc_gen("IbbGen.tla", "IbbGenInj.cfg")       # one foreign block
@@ -177,22 +243,25 @@ def run(chk, replay=None):
         lg = long_cases(rnd, quick)
         chk.cov["generation"].update({"size_sweep": len(sw), "long_transfers": len(lg)})
         execs = execs + sw + lg
-    vf.write_ndjson(chk.path("behaviours.ndjson"), execs)
-    # 3. replay on the real transfer managers (ASan/UBSan build)
-    trace = chk.path("trace.ndjson")
-    r = vf.qxv("ibb", trace, in_path=chk.path("behaviours.ndjson"), seed=chk.seed, tier=chk.tier, check=False)
-    vf.repair_truncated(trace)
-    cases = vf.split_cases(trace)
-    chk.cov["replay_wall_s"] = r["wall_s"]
-    crashed = None
-    if r["sanitizer"]:
-        chk.note("sanitizer output while replaying (C19 has no no-UB clause; not judged): " + "; ".join(r["sanitizer"][:3]))
-    if r["rc"] != 0:
-        last = list(cases)[-1] if cases else None
-        idx = int(last[1:]) - 1 if last else 0
-        crashed = (execs[idx] if execs else None, vf.san_signature(r))
-    # 4. trace validation
-    s = validate_in_chunks(chk, trace)
+    # 3. in-band: replay on the real transfer managers (ASan/UBSan build), 4. trace validation
+    cases, s, crashed, r = {}, {"cases": 0, "lines": 0, "viol": [], "ndiv": 0, "divs": [], "faulted": 0, "clean": 0,
+                                "wall_s": 0, "chunks": 0}, None, None
+    if execs:
+        vf.write_ndjson(chk.path("behaviours.ndjson"), execs)
+        trace = chk.path("trace.ndjson")
+        r = vf.qxv("ibb", trace, in_path=chk.path("behaviours.ndjson"), seed=chk.seed, tier=chk.tier, check=False)
+        vf.repair_truncated(trace)
+        cases = vf.split_cases(trace)
+        chk.cov["replay_wall_s"] = r["wall_s"]
+        if r["sanitizer"]:
+            chk.note("sanitizer output while replaying (C19 has no no-UB clause; not judged): " + "; ".join(r["sanitizer"][:3]))
+        if r["rc"] != 0:
+            last = list(cases)[-1] if cases else None
+            idx = int(last[1:]) - 1 if last else 0
+            crashed = (execs[idx] if execs else None, vf.san_signature(r))
+        s = validate_in_chunks(chk, trace)
+    # 5. SOCKS5: model check, one real loopback transfer per class of behaviours, outcome validation
+    s5_execs, s5_cases, s5 = run_s5(chk, quick, rnd, s5_replay)
     applied = collections.Counter()
     for lines in cases.values():
         for ln in lines:
@@ -200,34 +269,54 @@ def run(chk, replay=None):
                 applied[ln["k"]] += 1
             elif ln["e"] == "Inject":
                 applied["Inject:" + ln["w"]] += 1
-    chk.cov["traces_validated_against_impl"] = s["cases"]
-    chk.cov["trace_lines"] = s["lines"]
-    chk.cov["trace_wall_s"] = s["wall_s"]
+    for lines in s5_cases.values():
+        if lines[-1].get("o", {}).get("applied"):
+            applied["socks5:" + lines[0].get("k", "?")] += 1
+    chk.cov["traces_validated_against_impl"] = s["cases"] + s5["cases"]
+    chk.cov["inband_executions"] = s["cases"]
+    chk.cov["socks5_executions"] = s5["cases"]
+    chk.cov["trace_lines"] = s["lines"] + s5["lines"]
+    chk.cov["trace_wall_s"] = round(s["wall_s"] + s5["wall_s"], 2)
     chk.cov["trace_chunks"] = s["chunks"]
-    chk.cov["executions_with_stream_fault"] = s["faulted"]
-    chk.cov["executions_without_stream_fault"] = s["clean"]
+    chk.cov["executions_with_stream_fault"] = s["faulted"] + s5["faulted"]
+    chk.cov["executions_without_stream_fault"] = s["clean"] + s5["clean"]
     chk.cov["faults_applied_by_kind"] = dict(sorted(applied.items()))
-    chk.cov["diverged_executions"] = s["ndiv"]
-    chk.cov["first_divergences"] = s["divs"][:3]
+    chk.cov["diverged_executions"] = s["ndiv"] + s5["ndiv"]
+    chk.cov["first_divergences"] = (s["divs"] + s5["divs"])[:4]
     chk.cov["exhaustive"] = True
-    chk.cov["bounds"] = {"model": "W=4, files of 0..9 blocks, <=1 stream fault + <=1 foreign block (two of each: safety only)",
-                         "replay": "W=65536; files of 0,1,2,3,5 blocks (quick) with every single fault at every block and "
-                                   "every interleaving; block sizes 1..4096; transfers of >65536 blocks"}
+    chk.cov["bounds"] = {"model": "Ibb: W=4, files of 0..9 blocks, <=1 stream fault + <=1 foreign block (two of each: safety "
+                                  "only); IbbS5: files of 0..5 units, <=1 fault",
+                         "replay": "in-band: W=65536, every path of the model for files of 0..7 blocks (one fault) / 1,2 blocks "
+                                   "(fault + foreign block; thorough 0..4), block sizes 1..4096, transfers of >65536 blocks; "
+                                   "SOCKS5: every (size, fault kind, unit hit) class for files of 0..3 (thorough 0..4) units"}
     chk.cov["max_blocks_transferred"] = max((b["n"] for b in execs), default=0)
     chk.cov["block_sizes"] = sorted({b.get("bs", REAL_BS) for b in execs})
-    chk.cov["rule"] = ("behaviours = every path of the bounded Ibb model (file sizes x one stream fault of each kind at every "
-                       "block x one injected foreign block x delivery interleavings) to its end, each replayed with the real "
+    chk.cov["rule"] = ("in-band: behaviours = every path of the bounded Ibb model (file sizes x one stream fault of each kind at "
+                       "every block x one injected foreign block x delivery interleavings) to its end, each replayed with the real "
                        "sender and receiver (4096-byte blocks) and with the specification's sender at other block sizes; "
                        "fault-free size sweep around block boundaries; transfers crossing the 16-bit counter wrap; every "
-                       "execution drained to quiescence and validated by IbbTrace.tla (C19 predicates on the logged outcome)")
+                       "execution drained to quiescence and validated by IbbTrace.tla (C19 predicates on the logged outcome). "
+                       "SOCKS5: one loopback transfer between the two real managers per class (size, fault, unit) of the "
+                       "IbbS5 model's behaviours through a tampering TCP proxy, outcome validated by IbbS5Trace.tla")
     for b in execs[:2] + execs[-2:]:
         chk.sample({k: v for k, v in b.items() if k != "steps"} | {"steps": short(b)})
+    for b in s5_execs[:1] + s5_execs[-1:]:
+        chk.sample({k: v for k, v in b.items() if k != "steps"} | {"steps": short_s5(b)})
     # one violation per class of behaviour (first = the shortest execution of that class).
     # Replay files live beside out/C19 (vf.Check empties out/C19 at start, also in --replay mode).
     rdir = os.path.join(vf.OUT, "C19.replay")
     if not replay:
         shutil.rmtree(rdir, ignore_errors=True)
         os.makedirs(rdir, exist_ok=True)
+
+    def report(sig, what, items):
+        if replay:
+            rpath = os.path.abspath(replay)      # re-driven from this file: it stays the replay
+        else:
+            rpath = os.path.join(rdir, f"violation-{len(chk.violations) + 1}.ndjson")
+            vf.write_ndjson(rpath, items)
+        chk.violation(sig, what, replay_path=rpath)
+
     by_case = {}
     for v in s["viol"]:
         by_case.setdefault(v["case"], []).append(v)
@@ -240,24 +329,36 @@ def run(chk, replay=None):
                 continue
             reported.add(sig)
             end = cases[case][-1].get("o", {})
-            if replay:
-                rpath = os.path.abspath(replay)      # re-driven from this file: it stays the replay
-            else:
-                rpath = os.path.join(rdir, f"violation-{len(chk.violations) + 1}.ndjson")
-                vf.write_ndjson(rpath, [b] + cases[case])
-            chk.violation(sig, f"{v['prop']} fails for {short(b)}: receiver {end.get('rs')}/{end.get('re')}, sender "
-                          f"{end.get('ss')}/{end.get('se')}, receiver holds the sent bytes: {end.get('eq')} "
-                          f"({end.get('rlen')} of {end.get('slen')} bytes)", replay_path=rpath)
-    chk.cov["violating_executions"] = len(by_case)
+            report(sig, f"{v['prop']} fails for {short(b)}: receiver {end.get('rs')}/{end.get('re')}, sender "
+                   f"{end.get('ss')}/{end.get('se')}, receiver holds the sent bytes: {end.get('eq')} "
+                   f"({end.get('rlen')} of {end.get('slen')} bytes)", [b] + cases[case])
+    by_case5 = {}
+    for v in s5["viol"]:
+        by_case5.setdefault(v["case"], []).append(v)
+    reported5 = set()
+    for case in sorted(by_case5, key=lambda c: int(c[1:])):
+        b = s5_execs[int(case[1:]) - 1]
+        end = s5_cases[case][-1].get("o", {})
+        for v in sorted(by_case5[case], key=lambda v: v["prop"]):
+            sig = "C19:" + v["prop"] + ":socks5:" + (s5_cases[case][0].get("k") if end.get("applied") else "clean") + \
+                (":empty-file" if b["size"] == 0 else "")
+            if sig in reported5 or len(reported5) >= 4:
+                continue
+            reported5.add(sig)
+            report(sig, f"{v['prop']} fails for {short_s5(b)}: receiver {end.get('rs')}/{end.get('re')}, sender "
+                   f"{end.get('ss')}/{end.get('se')}, receiver holds the sent bytes: {end.get('eq')} "
+                   f"({end.get('rlen')} of {end.get('slen')} bytes)", [b] + s5_cases[case])
+    chk.cov["violating_executions"] = len(by_case) + len(by_case5)
     if crashed and not chk.violations:
         b, sg = crashed
         raise vf.MachineryError("qxv ibb ended abnormally (" + sg + ") while replaying " + (short(b) if b else "?") + ": " +
                                 "; ".join(r["sanitizer"][:3]) + " " + r["stderr"][-600:])
     chk.assumptions += [
         "offers announce size and MD5 hash (what sendFile(path) produces); without them alteration of a block is undetectable",
-        "in-band bytestream method only (SOCKS5 not driven); IQ-based IBB (stop-and-wait)",
-        "the network damages data blocks of the stream (and may acknowledge on the receiver's behalf to reorder or continue "
-        "after a loss); it does not forge offer/open stanzas",
+        "in-band: IQ-based IBB (stop-and-wait); the network damages data blocks of the stream (and may acknowledge on the "
+        "receiver's behalf to reorder or continue after a loss); it does not forge offer/open stanzas",
+        "SOCKS5: direct connection (no XEP-0065 proxy activation); faults act on the data bytes of the TCP stream; a "
+        "duplicate of the final unit (bytes after a complete file) is not a fault of the model",
         "MD5 is treated as injective on the contents used (no crafted collisions)",
         "detection is claimed for exactly one stream fault per transfer (two faults can cancel); safety for any number",
     ]
